@@ -13,12 +13,12 @@ import (
 )
 
 type Frame struct {
-	fn      *ssa.Function
-	regs    map[ssa.Value]Val
-	blk     *ssa.BasicBlock
-	prev    *ssa.BasicBlock
-	ip      int
-	defers  []deferred
+	fn       *ssa.Function
+	regs     map[ssa.Value]Val
+	blk      *ssa.BasicBlock
+	prev     *ssa.BasicBlock
+	ip       int
+	defers   []deferred
 	bind     ssa.Value       // value in the caller frame to bind the result to (nil: discard)
 	callSite ssa.Instruction // call instruction in the caller
 	visits   map[int]int
